@@ -269,7 +269,9 @@ StartExecuting(me, d, now) ==
 \* DBState.Executing (execute packet)
 ExecutingOf(me, d, claimed, now) ==
   IF HasTimedOut(d, now) THEN R("ErrTimeoutReached", d)
-  ELSE IF me \in d.leav /\ CanGo(d.st, "Left") THEN LeftOf(me, d, now)
+  ELSE IF me \in d.leav /\ CanGo(d.st, "Left")
+    THEN (IF claimed # Addr[d.ldr] THEN R("ErrOnlyLeaderCanTriggerExecute", d)      \* (F24 repaired: leader check first)
+          ELSE LeftOf(me, d, now))
   ELSE R(FirstErr(<<
         <<~CanGo(d.st, "Executing"), "InvalidStateChange">>,
         <<me \notin d.rem /\ me \notin d.join, "ErrCannotExecuteIfNotJoinerOrRemainer">>,
@@ -308,6 +310,8 @@ Fallback(c, f) == IF c.st \in Terminal THEN (IF f.st = "None" THEN FreshRec ELSE
 SetupOK(d) == \A p \in d.rem \cup d.join : KeyOK(p)
 
 Out(res, why, c, f, x) == [res |-> res, why |-> why, cur |-> c, fin |-> f, exec |-> x]
+\* executeDKG: when setupDKG fails after Executing was stored, the attempt is marked Failed (F14-executing repaired)
+SetupFailed(next) == IF next.st = "Executing" THEN [next EXCEPT !.st = "Failed"] ELSE next
 ResOf(err) == IF err = "panic" THEN "panic" ELSE "err"
 
 Cmds == {"initial", "reshare", "join", "accept", "reject", "execute", "abort"}
@@ -328,7 +332,7 @@ CommandOp(me, c0, f0, x0, now, c) ==
   IN IF a.err # "ok" THEN Out(ResOf(a.err), a.err, c0, f0, x0)
      ELSE \* SaveCurrent happened; what follows can still make the call return an error
        IF c.cmd = "execute" /\ ~SetupOK(a.next)
-         THEN Out("err", "setupDKG failed after Executing was saved", a.next, f0, x0)
+         THEN Out("err", "setupDKG failed: attempt stored as Failed", SetupFailed(a.next), f0, x0)
        ELSE IF c.cmd \in {"initial", "reshare"} /\ (a.next.join \cup a.next.rem) \ {me} = {}
          THEN Out("err", "gossip recipients was empty (state already saved)", a.next, f0, x0)
        ELSE Out("ok", "ok", a.next, f0, IF c.cmd = "execute" THEN "running" ELSE x0)
@@ -365,7 +369,7 @@ PacketOp(me, c0, f0, x0, now, p) ==
      ELSE LET v == VerifyMessage(p, a.next)
           IN IF v # "ok" THEN Out("err", v, c0, f0, x0)
              ELSE IF p.typ = "execute" /\ ~SetupOK(a.next)                      \* SaveCurrent, then executeDKG fails
-               THEN Out("err", "setupDKG failed after Executing was saved", a.next, f0, x0)
+               THEN Out("err", "setupDKG failed: attempt stored as Failed", SetupFailed(a.next), f0, x0)
              ELSE Out("ok", "ok", a.next, f0, IF p.typ = "execute" THEN "running" ELSE x0)
 
 (* executeAndFinishDKG, outcome of the kyber protocol chosen by the environment *)
@@ -478,8 +482,15 @@ C08Fails(me, x, now, res, c0, f0, c1, f1) ==
                                        /\ t.ldr # me
                                        /\ (f0.st = "Complete" => t.ldr \in f0.fg))
                     /\ (x.k = "cmd" => t.ldr = me /\ (t.join \cup t.rem) \ {me} # {})
-  IN  (IF c1.st # c0.st /\ (<<c0.st, c1.st>> \notin LegalTable \/ ~RoleAllows(me, c1))
-         THEN {<<"LegalStep", IF <<c0.st, c1.st>> \notin LegalTable THEN "transition-not-in-table" ELSE "not-allowed-for-role">>} ELSE {})
+      \* one call may take two legal steps when it starts an execution that cannot be set up
+      isExecute == (x.k = "cmd" /\ x.cmd = "execute") \/ (x.k = "pkt" /\ x.typ = "execute")
+      legal == \/ <<c0.st, c1.st>> \in LegalTable
+               \/ (isExecute /\ <<c0.st, "Executing">> \in LegalTable /\ <<"Executing", c1.st>> \in LegalTable)
+      \* statuses from which the protocol offers a legal way to the next proposal (directly, or by abort)
+      usable == c1.st \in {"Fresh", "Complete", "Aborted", "TimedOut", "Failed", "Left",
+                           "Joined", "Proposing", "Proposed", "Accepted", "Rejected"}
+  IN  (IF c1.st # c0.st /\ (~legal \/ ~RoleAllows(me, c1))
+         THEN {<<"LegalStep", IF ~legal THEN "transition-not-in-table" ELSE "not-allowed-for-role">>} ELSE {})
  \cup (IF c1.st = c0.st /\ ~SameAttempt(c0, c1) /\ c0.st # "Fresh"
          THEN {<<"LegalStep", "terms-changed-without-transition">>} ELSE {})
  \cup (IF \/ (f0.st # "None" /\ f1.st # "None" /\ f1.ep < f0.ep)
@@ -490,22 +501,23 @@ C08Fails(me, x, now, res, c0, f0, c1, f1) ==
                        /\ (f0.st = "None" \/ f1.ep > f0.ep)
                        /\ x.k = "exec" /\ c0.st = "Executing" /\ c1 = f1)
          THEN {<<"FinishedOnlyByLaterComplete", "finished-record-replaced">>} ELSE {})
- \cup (IF res # "ok" /\ f1 # f0 THEN {<<"RejectedIsNoOp", "finished-changed-on-error">>} ELSE {})
- \cup (IF res # "ok" /\ f1 = f0 /\ c1 # c0
-         THEN {<<"RejectedIsNoOp",
-                 "current-changed-on-error-" \o
+ \cup (IF res # "ok" /\ f1 # f0 THEN {<<"RejectedKeepsFinished", "finished-changed-on-error">>} ELSE {})
+ \cup (IF res # "ok" /\ c1 # c0 /\ ~usable
+         THEN {<<"RejectedLeavesUsable",
+                 "error-left-node-in-" \o c1.st \o "-" \o
                  (IF x.k = "cmd" THEN "cmd-" \o x.cmd ELSE IF x.k = "pkt" THEN "pkt-" \o x.typ ELSE x.k) \o
-                 \* observable circumstances (they keep the signature of a known deviation narrow)
-                 (IF c1.st = "Executing" /\ (\E p \in c1.rem \cup c1.join : ~KeyOK(p)) THEN "-participant-key-unusable"
-                  ELSE IF c1.st = "Proposing" /\ (c1.rem \cup c1.join) \ {me} = {} THEN "-nobody-to-gossip-to"
-                  ELSE "")>>}
+                 (IF \E p \in c1.rem \cup c1.join : ~KeyOK(p) THEN "-participant-key-unusable" ELSE "")>>}
          ELSE {})
  \cup (IF adopted /\ defects # {}
          THEN {<<"InvalidProposalRejected", d>> : d \in defects} ELSE {})
  \cup (IF over /\ wellformed /\ ~(res = "ok" /\ c1.st \in {"Proposed", "Proposing"} /\ c1.ep = t.ep /\ f1 = f0)
          THEN {<<"StillUsable", "after-" \o c0.st>>} ELSE {})
+ \cup (IF lapsed /\ x.k = "cmd" /\ x.cmd = "abort" /\ ~(res = "ok" /\ c1.st = "Aborted" /\ f1 = f0)
+         THEN {<<"StillUsable", "abort-refused-after-timeout">>} ELSE {})
+ \* information only (not part of C08's verdict): nothing ever sets TimedOut, so after the timeout the next
+ \* proposal is refused until somebody aborts explicitly (abort + proposal works, see the line above)
  \cup (IF lapsed /\ wellformed /\ ~(res = "ok" /\ c1.st \in {"Proposed", "Proposing"} /\ c1.ep = t.ep /\ f1 = f0)
-         THEN {<<"TimedOutUsable", "timeout-reached-status-not-terminal">>} ELSE {})
+         THEN {<<"Info_TimedOutNeedsAbort", "timeout-reached-status-not-terminal">>} ELSE {})
 
 (* C09.  Only packets; only when the node changed DKG state on the packet. *)
 C09Fails(me, x, now, res, c0, f0, c1, f1) ==
@@ -717,15 +729,10 @@ Names(F) == {f[1] : f \in F}
 
 \* deviations of the unchanged code that the design model already shows (see known_findings.json);
 \* they are checked separately (MC_DKG_dev.cfg expects a counterexample), everything else must hold.
-Known08 == {"TimedOutUsable"}
-Known08Details == {<<"RejectedIsNoOp", "current-changed-on-error-pkt-execute-participant-key-unusable">>,
-                   <<"RejectedIsNoOp", "current-changed-on-error-cmd-execute-participant-key-unusable">>,
-                   <<"RejectedIsNoOp", "current-changed-on-error-cmd-initial-nobody-to-gossip-to">>,
-                   <<"RejectedIsNoOp", "current-changed-on-error-cmd-reshare-nobody-to-gossip-to">>,
-                   <<"InvalidProposalRejected", "drops-member-key">>}
+Known08 == {"Info_TimedOutNeedsAbort"}
+Known08Details == {<<"InvalidProposalRejected", "drops-member-key">>}
 Known09 == {"C09_KeyFromGroup"}
-Known09Details == {<<"C09_Entitled", "execute-not-from-leader-to-leaver">>,
-                   <<"C09_SigCoversTerms", "genesis-seed-not-signed">>,
+Known09Details == {<<"C09_SigCoversTerms", "genesis-seed-not-signed">>,
                    <<"C09_SigCoversTerms", "participant-key-not-signed">>}
 
 Act_C08 == [][{f \in Fails08 : f[1] \notin Known08 /\ f \notin Known08Details} = {}]_vars
